@@ -815,8 +815,9 @@ func checkModuliLogSize(logQ, logP []int) error {
 // GenModuli generates a valid moduli chain from the provided moduli sizes.
 func GenModuli(LogNthRoot int, logQ, logP []int) (q, p []uint64, err error) {
 
-	if err = checkSizeParams(logN); err != nil {
-		return
+	// The moduli are congruent to 1 modulo 2^LogNthRoot, which must be a valid shift below the largest modulus size
+	if LogNthRoot < 1 || LogNthRoot > MaxModuliSize {
+		return nil, nil, fmt.Errorf("cannot GenModuli: LogNthRoot=%d is not in [1, %d]", LogNthRoot, MaxModuliSize)
 	}
 
 	if err = checkModuliLogSize(logQ, logP); err != nil {
